@@ -150,9 +150,9 @@ func init() {
 	register("C09", "", ruleResultIndex)                       // a failed operation keeps its place in the batch
 	register("C12", "", ruleOperationType)                     // the name of a child step is part of the de-duplication key
 	// round 8
-	register("C15", "", ruleRoutingPairs) // schemas[n] is the reconstruction of the service behind urls[n], not of another one
+	register("C15", "", ruleSchemaPerURL) // schemas[n] is the reconstruction of the service behind urls[n], not of another one; how NewGateway and Merge pair schema and URL afterwards is routing (C04), not reconstruction
 	register("C17", "", ruleGatewayState) // what stitches an event is built for that subscription, not kept on the gateway
-	register("C16", "", ruleCallers(func(c string) bool { return strings.Contains(c, "ResolveIntrospectionFields") }))
+	register("C16", "", ruleCallers(func(c string) bool { return strings.Contains(c, "ResolveIntrospectionFields") }), rulePlanHandedToResolver)
 	register("C05", "", ruleMergeExemptions)
 	register("C02", "", ruleRouteLookupExemptions)
 	register("C01", "", ruleRouteLookupExemptions)
